@@ -1,5 +1,6 @@
 import Exetera.Props.C12
 import Exetera.Model.KernelSitesJoin
+import Exetera.Model.KernelPathsJoin
 import Exetera.Model.KernelSitesNotModelled
 import Exetera.Gen.KernelShape
 import Exetera.Props.C10.Basic
@@ -52,6 +53,14 @@ open Exetera Exetera.Join Exetera.Spec
 /-- the loop guards and subscripts of the modelled join kernels, as regenerated from the current source, are exactly the
     ones the model was written against -/
 theorem access_sites_covered_join : ∀ k ∈ KernelSites.joinSites, lookup k.1 = some k := by decide +kernel
+
+/-- the PATH CONDITION of every subscript occurrence in these kernels (enclosing loop guards, `if` / `elif` tests, negated
+    `else` branches and early exits), as regenerated from the current source (`Gen/KernelPaths.lean`), is exactly the one the
+    model was written against (`Model/KernelPathsJoin.lean`): dropping or changing a test that dominates a subscript breaks
+    the build; and the table covers exactly the kernels of the site table -/
+theorem access_paths_covered_join :
+    (∀ k ∈ KernelPaths.joinPaths, lookupPaths k.1 = some k) ∧
+    KernelPaths.joinPaths.map (·.1) = KernelSites.joinSites.map (·.1) := by decide +kernel
 
 /-- no out-of-bounds access at any site, in any of the eight join-map generators, for every valid input and every chunk
     size ≥ 1; in particular the chunk-sized result buffers are never overrun whatever the ratio of matches to rows -/
